@@ -32,6 +32,7 @@ from .common import (
     cached_methods,
     is_empty_dict,
     is_empty_list,
+    is_memo_fill,
     is_notify,
     only_called_from,
     resolve_root,
@@ -214,7 +215,7 @@ def run(ctx):
                         if _is_clear(ev):
                             dirty = None
                         continue
-                    if chain[0] in state:
+                    if chain[0] in state and not is_memo_fill(ctx, ev):
                         dirty = ev
                 elif dirty is not None and is_notify(ctx, ev):
                     bad = True
@@ -330,6 +331,8 @@ def run(ctx):
     for m in cached:
         bad = False
         for w in eff.closure_writes(m, disp, max_depth=5):
+            if is_memo_fill(ctx, w.event):
+                continue  # a correctly invalidated private memo of another object
             root, chain, _ = resolve_root(w.event)
             if root == "self" and chain[:1] == [CACHE[0]]:
                 continue
@@ -461,6 +464,53 @@ def _unscheduled_observer(ctx):
     if n_pop == 0 and not bad:
         chk.violation("R05.e", upd, None, "update never removes the dispatched operation from the mirror")
         bad = True
+    if not bad:
+        # a notification that removes nothing may do so only because the deque
+        # is empty: a test of WHICH operation is at its head drops every
+        # notification that does not arrive in job order - and the constructor
+        # replays an existing schedule machine by machine
+        beng = ctx.engine(relevant=lambda e: e.kind == "branch" or (e.kind == "write" and not e.data.get("local")), max_depth=1)
+        for p in beng.paths(upd, obs):
+            if p.outcome == "raise":
+                continue
+            if any(ev.kind == "write" and ev.data.get("op") == "mutcall" for ev in p.events):
+                continue
+            culprit = None
+            for ev in p.events:
+                if ev.kind != "branch":
+                    continue
+                for e in ast.walk(ctx.norm.xexpr(ev.fi, ev.node)):
+                    if not (isinstance(e, ast.Compare) and len(e.ops) == 1 and isinstance(e.ops[0], (ast.Eq, ast.NotEq, ast.Is, ast.IsNot))):
+                        continue
+                    names = {x.id for x in ast.walk(e) if isinstance(x, ast.Name)}
+                    if sop in names and "unscheduled_operations_per_job" in ast.unparse(e):
+                        culprit = ast.unparse(e)
+            if culprit is not None:
+                # the order in which the constructor replays an existing schedule
+                init = obs.methods.get("__init__")
+                replay = None
+                if init is not None:
+                    fin = ctx.norm.flat(init, depth=3)
+                    for lp in fin.node.body:  # the outermost loop around the replayed update calls
+                        if isinstance(lp, ast.For) and any(
+                            isinstance(c, ast.Call) and isinstance(c.func, ast.Attribute) and c.func.attr == "update" for c in ast.walk(lp)
+                        ):
+                            replay = ctx.norm.xtext(fin, lp.iter)
+                if replay is None or "schedule.schedule" not in replay or "sorted" in replay:
+                    raise AnalysisError(
+                        f"UnscheduledOperationsObserver.update tests the head of the deque (`{culprit}`) and the order in which the "
+                        f"constructor replays the schedule (`{replay}`) is not the pinned machine-by-machine walk: not decided"
+                    )
+                bad = True
+                br = next((ev for ev in p.events if ev.kind == "branch"), None)
+                chk.violation(
+                    "R05.e", upd, br.node if br is not None else None,
+                    f"whether update removes anything depends on `{culprit}`: notifications are dropped unless they arrive in job order, "
+                    "but the constructor replays an existing schedule machine by machine, so an observer created after "
+                    "some dispatches keeps operations that are already scheduled",
+                    loc=br.loc if br is not None else None,
+                )
+                break
     if not bad:
         chk.ok("R05.e", upd.qualname, upd.loc(), "pops head of the dispatched job's deque")
     # reset: rebinds the per-job list from a comprehension over instance.jobs
